@@ -24,6 +24,25 @@ type c10Prog struct {
 	name string
 	page string
 	data func() map[string]any
+	want string // when set: the output this program has whatever ran before it (process-wide state is shared with "fresh" engines too)
+}
+
+// two DIFFERENT struct types with the same package path and the same name (function-local types), their JSON tags on different fields
+func c10RowsA() map[string]any {
+	type Row struct {
+		Label string `json:"label"`
+		Count int    `json:"count"`
+	}
+	return map[string]any{"rows": []Row{{"la", 1}, {"lb", 2}}, "one": Row{"lone", 9}}
+}
+
+func c10RowsB() map[string]any {
+	type Row struct {
+		Count int    `json:"count"`
+		Extra string `json:"extra"`
+		Label string `json:"label"`
+	}
+	return map[string]any{"rows": []Row{{3, "x", "lc"}, {4, "y", "ld"}}, "one": Row{8, "z", "ltwo"}}
 }
 
 var c10Files = map[string]string{
@@ -67,6 +86,7 @@ var c10Files = map[string]string{
 	"components/UiBadge.vuego": `<b class="badge">{{ label }}</b>`,
 	// a program that DEFINES variables in every kind of scope (top level, loop body, included component, bound and plain <template> attributes) and a
 	// program that only READS those names, in every kind of scope: nothing the first one defined is visible in the second, whatever ran before
+	"rows.vuego": `<i v-for="r in rows">{{ r.label }}|{{ r.count }};</i><b>{{ one.label }}|{{ one.count }}</b>`,
 	"leaksrc.vuego": `<template canary="CANARY-7f3a" other="x"></template><ul><li v-for="p in items"><template canary="CANARY-7f3a" pp="{{ p }}"></template>{{ p }}{{ canary }}</li></ul>` +
 		`<template include="leakcomp.vuego" :canary3="'CANARY-7f3a'"></template><div v-for="(i, p) in items"><template :canary2="'CANARY-7f3a'"></template><b>{{ canary2 }}</b></div>`,
 	"leakcomp.vuego":     `<template canary="CANARY-7f3a"></template><i v-for="w in items"><template canary4="CANARY-7f3a"></template>c</i>`,
@@ -107,15 +127,16 @@ func c10Progs() []c10Prog {
 	var out []c10Prog
 	for _, f := range []string{"attrs", "style", "loop", "chain", "inc", "once", "filters", "fm", "layouted", "slotpage", "fmset", "nest", "fail", "failinc", "failmid", "failtext", "failreq", "tpl", "vhtml", "map", "tplhtml", "shorthand", "leaksrc", "leaksink"} {
 		for v := 0; v < 4; v++ {
-			out = append(out, c10Prog{fmt.Sprintf("%s/%d", f, v), f + ".vuego", c10Data(v)})
+			out = append(out, c10Prog{fmt.Sprintf("%s/%d", f, v), f + ".vuego", c10Data(v), ""})
 		}
 	}
+	out = append(out, c10Prog{"rows/a", "rows.vuego", c10RowsA, "<i>la|1;</i>\n<i>lb|2;</i>\n<b>lone|9</b>\n"}, c10Prog{"rows/b", "rows.vuego", c10RowsB, "<i>lc|3;</i>\n<i>ld|4;</i>\n<b>ltwo|8</b>\n"})
 	for _, f := range []string{"types", "chain"} {
 		for v := 0; v < 7; v++ {
 			if f == "chain" && v < 4 {
 				continue
 			}
-			out = append(out, c10Prog{fmt.Sprintf("%s/%d", f, v), f + ".vuego", c10Data(v)})
+			out = append(out, c10Prog{fmt.Sprintf("%s/%d", f, v), f + ".vuego", c10Data(v), ""})
 		}
 	}
 	return out
@@ -166,7 +187,9 @@ func runC10(r *Run, replay *Case) {
 		wout, we := fresh(p, viaVue)
 		c := &Case{Name: kind + " " + p.name, Input: map[string]any{"kind": kind, "history": hist, "prog": p.name, "vue": viaVue}, Impl: map[string]any{"out": out, "err": e},
 			Key: fmt.Sprintf("%s|%v|%s|%v", kind, hist, p.name, viaVue), Tags: []string{"kind:" + kind, "prog:" + p.page}, Oracle: &Verdict{OK: true}}
-		if p.page == "leaksink.vuego" && strings.Contains(out+wout, "CANARY") {
+		if p.want != "" && out != p.want {
+			c.Oracle = &Verdict{OK: false, Class: "differs-from-own-inputs:" + p.page, Detail: fmt.Sprintf("after %v: %q, the program's files and data give %q", hist, out, p.want)}
+		} else if p.page == "leaksink.vuego" && strings.Contains(out+wout, "CANARY") {
 			// (process-wide pools are shared with the fresh engine too: the value must not be there at all)
 			c.Oracle = &Verdict{OK: false, Class: "value-of-another-render-visible:" + p.page, Detail: fmt.Sprintf("after %v: %q (fresh engine: %q) shows a value only another program defines", hist, out, wout)}
 		} else if out != wout || e != we {
